@@ -28,7 +28,9 @@ RInit0 == jar = [b \in Browsers |-> NoJar] /\ nAtt = 0 /\ rviol = {}
 \* how the callback request differs from what the browser would send by itself
 \* replayPkceAsState: the browser presents the pkce cookie that attempt args.att received - under the state cookie's name (and under
 \* its own), with the verifier as state parameter: a genuine cookie of the RP, minted for another cookie name
-Tampers == {"asis", "dropState", "dropPkce", "otherKey", "swapNames", "truncate", "otherKeyPkce", "replayPkceAsState"}
+\* nearKey / nearKeyPkce: minted under ANOTHER hash key that shares its first 64 bytes with the relying party's (long keys that differ
+\* in their tail only, e.g. secret + "/2025-Q3" vs secret + "/2025-Q4"); same encryption key
+Tampers == {"asis", "dropState", "dropPkce", "otherKey", "swapNames", "truncate", "otherKeyPkce", "replayPkceAsState", "nearKey", "nearKeyPkce"}
 \* the state parameter of the callback, relative to the state of attempt args.att: the very string, a proper prefix, the string plus a
 \* suffix, or the empty string
 Forms == {"exact", "prefix", "suffix", "empty"}
@@ -56,6 +58,8 @@ Presented(a, slot) ==
     [] a.tamper = "dropPkce"  /\ slot = "pk" -> "none"
     [] a.tamper = "otherKey"  /\ slot = "st" -> "foreign"        \* minted under another key
     [] a.tamper = "otherKeyPkce" /\ slot = "pk" -> "foreign"
+    [] a.tamper = "nearKey"  /\ slot = "st" -> "foreign"
+    [] a.tamper = "nearKeyPkce" /\ slot = "pk" -> "foreign"
     [] a.tamper = "swapNames" -> "wrongname"                      \* minted for the other cookie name
     [] a.tamper = "replayPkceAsState" /\ slot = "st" -> "wrongname"
     [] a.tamper = "replayPkceAsState" /\ slot = "pk" -> IF cfg.pkce /\ a.att # "t0" THEN a.att ELSE "none"
